@@ -221,6 +221,8 @@ class Program:
                 for t in st.targets:
                     if isinstance(t, ast.Name):
                         mod.assigns[t.id] = st.value
+            elif isinstance(st, ast.AnnAssign) and isinstance(st.target, ast.Name) and st.value is not None:
+                mod.assigns[st.target.id] = st.value
 
     def _add_function(self, node, mod, cls, parent) -> FuncInfo:
         if isinstance(node, ast.AsyncFunctionDef):
